@@ -53,9 +53,9 @@ func (f *failingReader) Read(p []byte) (int, error) {
 
 // TestVerif_C04C15_Readers: Lex(filename, reader) lexes exactly the bytes the reader delivers, however it delivers
 // them: the token stream equals that of LexString on the same text, and a read error is returned, not swallowed.
-func TestVerif_C04C15_Readers(t *testing.T) {
-	res := &verifResult{Check: "reader entry point", Property: "C04 C15", Exhaustive: true,
-		Bound: "3 stateful definitions x all inputs of length <= 4 (thorough: 5) over {a, space, (, ), newline, \\xc3\\xa9} x 7 readers (strings.Reader, bytes.Buffer, one byte at a time, 2-byte chunks, data returned together with io.EOF, 3-byte chunks ending with data+EOF, half reads), plus a reader failing after the text, and seekable readers from which a header was read before",
+func TestVerif_C04C15C03_Readers(t *testing.T) {
+	res := &verifResult{Check: "reader entry point", Property: "C04 C15 C03", Exhaustive: true,
+		Bound: "3 stateful definitions x all inputs of length <= 4 (thorough: 5) over {a, space, (, ), newline, \\xc3\\xa9, \\xff} x 7 readers (strings.Reader, bytes.Buffer, one byte at a time, 2-byte chunks, data returned together with io.EOF, 3-byte chunks ending with data+EOF, half reads), plus a reader failing after the text, and seekable readers from which a header was read before",
 		Rule: "distinct (definition, input, reader) triples; non-trivial = non-empty input and a reader other than strings.Reader"}
 	defs := map[string]Rules{
 		"simple": {"Root": {{"Ident", `[a-zé]+`, nil}, {"ws", `\s+`, nil}}},
@@ -63,7 +63,7 @@ func TestVerif_C04C15_Readers(t *testing.T) {
 			"In": {{"Close", `\)`, Pop()}, {"Word", `[a-zé]+`, nil}, {"ws", `\s+`, nil}}},
 		"any": {"Root": {{"Any", `(?s).`, nil}}},
 	}
-	alpha := []string{"a", " ", "(", ")", "\n", "é"}
+	alpha := []string{"a", " ", "(", ")", "\n", "é", "\xff"}
 	maxLen := 4
 	if verifThorough() {
 		maxLen = 5
